@@ -311,6 +311,18 @@ func judgeVer(c Case, w *vkit.W) {
 			w.Fail(c, "valid-error-not-documented", fmt.Sprintf("Ver%+v: Valid() = %v", v, verr))
 		}
 	}
+	// the receiver is a setting too: a variable that already holds this very value (valid or not) reads its own text like any other
+	for _, own := range []string{text, v.StringTag()} {
+		if own != text && !tagFits {
+			continue
+		}
+		want, werr := sem.Parse(own)
+		recv := v
+		uerr := recv.UnmarshalText([]byte(own))
+		if (uerr == nil) != (werr == nil) || (uerr == nil && recv != want) {
+			w.Fail(c, "unmarshal-into-own-value", fmt.Sprintf("Ver%+v.UnmarshalText(%q) = %v (receiver then %+v), but Parse of the same text = %+v, %v", v, own, uerr, recv, want, werr))
+		}
+	}
 	if tag, perr := sem.ParseTag(v.StringTag()); tagFits && (perr == nil && tag == v) != roundTrips {
 		w.Fail(c, "valid-iff-round-trip", fmt.Sprintf("Ver%+v: tag form %q parses to %+v, %v but plain form round-trips=%v", v, v.StringTag(), tag, perr, roundTrips))
 	}
@@ -525,6 +537,36 @@ func TestCheck(t *testing.T) {
 							judge(Case{Kind: "text", Text: vkit.B(m)}, w)
 							w.EvalRandom(vkit.Hash64(m), true)
 						}
+					}
+				}
+			}
+		})
+	})
+
+	// Phase A3b: several separators replaced at once by the same byte (every byte value): both core dots, all dots, dash and plus.
+	r.Phase("A3b: every subset of two or more separators of an accepted text replaced by one and the same byte (256 values)", func() {
+		bases := []string{"1.2.3", "v10.20.30", "1.2.3-a.b+c.d", "v1.0.0-rc.1+b", "0.0.0-0.0+0.0"}
+		r.Parallel(256, 8, func(w *vkit.W, lo, hi int64) {
+			for v := lo; v < hi; v++ {
+				for _, base := range bases {
+					var pos []int
+					for i := 0; i < len(base); i++ {
+						if base[i] == '.' || base[i] == '-' || base[i] == '+' {
+							pos = append(pos, i)
+						}
+					}
+					for mask := 3; mask < 1<<uint(len(pos)); mask++ {
+						if mask&(mask-1) == 0 {
+							continue
+						}
+						b := []byte(base)
+						for k, q := range pos {
+							if mask>>uint(k)&1 == 1 {
+								b[q] = byte(v)
+							}
+						}
+						judge(Case{Kind: "text", Text: vkit.B(b)}, w)
+						w.EvalRandom(vkit.Hash64("A3b", string(b)), true)
 					}
 				}
 			}
